@@ -12,9 +12,9 @@ from .. import core, obs
 
 STR_CH = ["a", '"', "\\", "$", "{", "'", "#", "\n", "\r", "\t", "\x7f", "é", " "]  # NUL is left out: Nix strings cannot hold it
 INTS = [0, 1, -1, 2**63, -7]
-FLOATS = [0.0, -0.0, 1.5, -2.5, 1e-7, 1e16, 1e22, 5e-324, 123456.789]
+FLOATS = [0.0, -0.0, 1.5, -2.5, 1e-7, 1e16, 1e22, 5e-324, 123456.789, -1e-7, -1e22]  # sign x {plain, exponent} spellings
 CONSTS = [True, False, None]
-REP = ["a", 'q"\\', "$", "'' ", "\n\t", "", 1, -1, 2**63, True, None, 1.5, -2.5, 1e-7]
+REP = ["a", 'q"\\', "$", "'' ", "\n\t", "", 1, -1, 2**63, True, None, 1.5, -2.5, 1e-7, -1e-7]
 KEYS = ["a", "b'", "_c"]
 
 
